@@ -23,10 +23,10 @@ Correspondence: model pipeline vs implementation on the whole event line without
 suffix, scalar text) and the verdict with its error position — `mx events str` (main unit, keep_tags off) and the
 C16 unit `run_str_keep` for both settings.
 
-Known finding (known_findings_c16.jsonl, class `overlong-utf8-escape`): a percent-escaped UTF-8 sequence that is not in
-shortest form (`%C0%AF`, `%E0%80%AF`, ...) is decoded instead of being rejected.  Streams whose FIRST defect is such an
-escape are routed there: the implementation must then behave exactly as the lenient reading says (decode it and go
-on); anything else is a violation.
+Non-shortest UTF-8 forms (`%C0%AF`, `%E0%80%AF`, `%F0%80%80%AF`, ...): rejected since /repo commit 990db80 with the
+"invalid UTF-8 codepoint" error at the tag; they are ordinary test streams here (SUFFIX_OVERLONG, PREFIX_OVERLONG, the
+systematic product and the overlong sweep) and a regression is reported as a VIOLATION with the failing input
+(known_findings_c16.jsonl records the class as `fixed`; nothing is suppressed).
 """
 import json
 import os
@@ -43,6 +43,7 @@ MSG = {
     "lead": "while parsing a tag, found an incorrect leading UTF-8 byte",
     "trail": "while parsing a tag, found an incorrect trailing UTF-8 byte",
     "codepoint": "while parsing a tag, found an invalid UTF-8 codepoint",
+    "overlong": "while parsing a tag, found an invalid UTF-8 codepoint",      # non-shortest form (RFC 3629 section 3)
     "undeclared": "the handle wasn't declared",
     "duphandle": "the TAG directive must only be given at most once per handle in the same document",
     "dupyaml": "duplicate version directive",
@@ -62,12 +63,11 @@ def _esc(raw, i):
     return None
 
 
-def pct_decode(raw, lenient=False):
-    """(text, None, used_overlong) or (None, reason, used_overlong); RFC 3629 by arithmetic.
-    reason: escape | lead | trail | codepoint | overlong (strict reading only)"""
+def pct_decode(raw):
+    """(text, None) or (None, reason); strict UTF-8 (RFC 3629) by arithmetic.
+    reason: escape | lead | trail | codepoint | overlong"""
     out = []
     i = 0
-    over = False
     while i < len(raw):
         if raw[i] != "%":
             out.append(raw[i])
@@ -75,7 +75,7 @@ def pct_decode(raw, lenient=False):
             continue
         b = _esc(raw, i)
         if b is None:
-            return None, "escape", over
+            return None, "escape"
         if b < 0x80:
             n, cp = 1, b
         elif 0xC0 <= b <= 0xDF:
@@ -85,37 +85,35 @@ def pct_decode(raw, lenient=False):
         elif 0xF0 <= b <= 0xF7:
             n, cp = 4, b - 0xF0
         else:
-            return None, "lead", over
+            return None, "lead"
         i += 3
         for _ in range(n - 1):
             b2 = _esc(raw, i)
             if b2 is None:
-                return None, "escape", over
+                return None, "escape"
             if not 0x80 <= b2 <= 0xBF:
-                return None, "trail", over
+                return None, "trail"
             cp = cp * 64 + (b2 - 0x80)
             i += 3
         if 0xD800 <= cp <= 0xDFFF or cp > 0x10FFFF:
-            return None, "codepoint", over
+            return None, "codepoint"
         if cp < (0, 0x80, 0x800, 0x10000)[n - 1]:
-            if not lenient:
-                return None, "overlong", True
-            over = True
+            return None, "overlong"
         out.append(chr(cp))
-    return "".join(out), None, over
+    return "".join(out), None
 
 
 def pct_selftest():
     """the arithmetic decoder against Python's own strict UTF-8 codec on every 1- and 2-byte sequence and a sweep"""
     def check(bs):
         raw = "".join("%%%02X" % b for b in bs)
-        t, why, _ = pct_decode(raw)
+        t, why = pct_decode(raw)
         try:
             ref = bytes(bs).decode("utf-8")
             ref = ref if len(ref) == 1 else None
         except UnicodeDecodeError:
             ref = None
-        return (t == ref) if ref is not None else (t is None or len(t) != 1 or len(bs) != len(t.encode("utf-8")))
+        return (t == ref) if ref is not None else (t is None or len(t) != 1)
     for a in range(256):
         if not check([a]):
             return "1-byte %02X" % a
@@ -180,11 +178,10 @@ def marker(text, idx):
     return "ERR@%d:%d:%d" % (idx, line, col)
 
 
-def walk(stream, keep, lenient):
-    """expected behaviour of one stream: dict(ok, seq, [level, why, msg, pos], overlong_used)"""
+def walk(stream, keep):
+    """expected behaviour of one stream: dict(ok, seq, [level, why, pos])"""
     table = {}
     seq = []
-    over = False
     for di, doc in enumerate(stream["docs"]):
         if not keep:
             table = {}
@@ -193,15 +190,14 @@ def walk(stream, keep, lenient):
         for d in doc["dirs"]:
             if d["k"] == "Y":
                 if yaml_seen:
-                    return dict(ok=False, seq=seq, level="parse", why="dupyaml", pos=d["off"], over=over, doc=di)
+                    return dict(ok=False, seq=seq, level="parse", why="dupyaml", pos=d["off"], doc=di)
                 yaml_seen = True
             elif d["k"] == "T":
-                p, why, o = pct_decode(d["raw"], lenient)
-                over = over or o
+                p, why = pct_decode(d["raw"])
                 if p is None:
-                    return dict(ok=False, seq=seq, level="scan", why=why, pos=d["off"], over=over)
+                    return dict(ok=False, seq=seq, level="scan", why=why, pos=d["off"])
                 if d["h"] in local:
-                    return dict(ok=False, seq=seq, level="parse", why="duphandle", pos=d["off"], over=over, doc=di)
+                    return dict(ok=False, seq=seq, level="parse", why="duphandle", pos=d["off"], doc=di)
                 local[d["h"]] = p
         table = dict(table)
         table.update(local)
@@ -211,29 +207,28 @@ def walk(stream, keep, lenient):
                 seq.append(None)
                 continue
             h, raw = t.split()
-            s, why, o = pct_decode(raw, lenient)
-            over = over or o
+            s, why = pct_decode(raw)
             if s is None:
-                return dict(ok=False, seq=seq, level="scan", why=why, pos=n["tagoff"], over=over)
+                return dict(ok=False, seq=seq, level="scan", why=why, pos=n["tagoff"])
             e = expand(table, h, s)
             if e is None:
-                return dict(ok=False, seq=seq, level="parse", why="undeclared", pos=n["off"], over=over, doc=di)
+                return dict(ok=False, seq=seq, level="parse", why="undeclared", pos=n["off"], doc=di)
             seq.append(e)
-    return dict(ok=True, seq=seq, over=over)
+    return dict(ok=True, seq=seq)
 
 
-def scan_defects(stream, lenient):
+def scan_defects(stream):
     """every broken escape of the stream, wherever it is: (document index, position, reason)"""
     out = []
     for di, doc in enumerate(stream["docs"]):
         for d in doc["dirs"]:
             if d["k"] == "T":
-                p, why, _ = pct_decode(d["raw"], lenient)
+                p, why = pct_decode(d["raw"])
                 if p is None:
                     out.append((di, d["off"], why))
         for n in doc["nodes"]:
             if n["tag"] is not None:
-                t, why, _ = pct_decode(n["tag"].split()[1], lenient)
+                t, why = pct_decode(n["tag"].split()[1])
                 if t is None:
                     out.append((di, n["tagoff"], why))
     return out
@@ -269,7 +264,7 @@ def render_expected(stream, keep):
                     break
                 yaml_seen = True
             elif d["k"] == "T":
-                p, why, _ = pct_decode(d["raw"])
+                p, why = pct_decode(d["raw"])
                 if p is None:
                     stop = "BADPREFIX"
                     break
@@ -284,7 +279,7 @@ def render_expected(stream, keep):
                 if n["tag"] is None:
                     continue
                 h, raw = n["tag"].split()
-                s, why, _ = pct_decode(raw)
+                s, why = pct_decode(raw)
                 if s is None:
                     stop = "BADSUFFIX"
                     break
@@ -623,6 +618,51 @@ def utf8_sweep(tier, rng):
     return out
 
 
+WORD = "0123456789abcdefghijklmnopqrstuvwxyzABCDEFGHIJKLMNOPQRSTUVWXYZ-"
+URI_CH = WORD + "#;/?:@&=+$,_.!~*'()[]"
+TAG_CH = "".join(c for c in URI_CH if c not in "!,[]{}")
+
+
+def theorem_shape(tier, rng):
+    """streams of exactly the shape of the text-level theorems of Properties/C16.v (C16_text_plain_document,
+    C16_text_directives_document and the rejections C16_text_*_rejects): 0-3 lines %TAG<blanks><handle><blanks><prefix>LF,
+    then "--- " <tag> " x" (end of input), the texts drawn from the character classes of Spec/TagSpec.v section 4 with
+    escapes of random scalar values; some with an escape that has no decoding (broken or non-shortest)"""
+    def items(chars, k):
+        return "".join(enc_cp(rand_scalar_value(rng), rng) if rng.random() < 0.3 else rng.choice(chars) for _ in range(k))
+    out = []
+    for i in range(400 if tier == "quick" else 8000):
+        b = Builder()
+        dirs = []
+        name = "".join(rng.choice(WORD + "_") for _ in range(rng.choice([0, 1, 1, 2, 4])))
+        for _ in range(rng.choice([0, 1, 1, 1, 2, 2, 3])):
+            # C16_text_directives_document: any number of %TAG lines, sometimes the same handle twice
+            dh = rng.choice(["!", "!" + name + "!", "!" + name + "!", "!z9!", "!!"])
+            first = rng.choice(["!", rng.choice(TAG_CH), enc_cp(rand_scalar_value(rng), rng)])
+            d = dict(k="T", h=dh, raw=first + items(URI_CH, rng.randrange(0, 6))
+                     + (rng.choice(["%C0%AF", "%E0%80%AF", "%C3", "%ZZ", "%ED%A0%80"]) if rng.random() < 0.05 else ""), off=b.n)
+            b.emit("%%TAG%s%s%s%s\n" % ("".join(rng.choice(" \t") for _ in range(rng.randrange(1, 4))), dh,
+                                        "".join(rng.choice(" \t") for _ in range(rng.randrange(1, 4))), d["raw"]))
+            dirs.append(d)
+        k = rng.randrange(5)
+        # theorems (h): a text of the right characters whose escapes have no decoding (broken or non-shortest)
+        broken = rng.choice(SUFFIX_BAD + SUFFIX_OVERLONG) if rng.random() < 0.15 else None
+        if k == 0:
+            t = TagS("verbatim", raw=items(URI_CH, rng.randrange(0, 6)) + (broken or ""))
+        elif k == 1:
+            t = TagS("nonspecific")
+        elif k == 2:
+            t = TagS("local", raw=items(TAG_CH, rng.randrange(1, 6)) + (broken or ""))
+        else:
+            sfx = items(TAG_CH, rng.randrange(1, 6)) + (broken or "")
+            t = TagS("secondary", raw=sfx) if name == "" else TagS("named", "!" + name + "!", sfx)
+        b.emit("--- ")
+        n = dict(tag=t, off=b.n, tagoff=b.n)
+        b.emit(t.text() + " x")
+        out.append(dict(text=b.text(), docs=[dict(dirs=dirs, nodes=[n], shape="theorem", implicit=False)]))
+    return out
+
+
 # ------------------------------------------------------------------------------------------------
 # comparing
 # ------------------------------------------------------------------------------------------------
@@ -665,11 +705,7 @@ def judge(exp, line, text, later=()):
         return None
     if not fin.startswith("ERR"):
         return "expected the error %r, got %s" % (exp["why"], fin[:80])
-    if exp["why"] == "overlong":
-        # the strict reading: rejected where the tag (or directive) starts, by the tag scanner
-        if not fin_msg(fin).startswith("while parsing a tag"):
-            return "expected a non-shortest escape to be rejected by the tag scanner, got %r" % fin_msg(fin)
-    elif fin_msg(fin) != MSG[exp["why"]]:
+    if fin_msg(fin) != MSG[exp["why"]]:
         return "expected the error %r, got %r" % (MSG[exp["why"]], fin_msg(fin))
     if fin_pos(fin) != marker(text, exp["pos"]):
         return "error position: expected %s got %s" % (marker(text, exp["pos"]), fin_pos(fin))
@@ -693,6 +729,7 @@ def handle_shape_ok(h):
 
 
 def load_known():
+    """classes still recorded as `known` for this property (none at present: a `fixed` entry suppresses nothing)"""
     out = {}
     if os.path.exists(KNOWN_FILE):
         for l in open(KNOWN_FILE):
@@ -701,6 +738,44 @@ def load_known():
                 d = json.loads(l)
                 if d.get("property") == PID and d.get("status") == "known":
                     out[d["class"]] = d
+    return out
+
+
+def overlong_sweep(tier, rng):
+    """regression streams for commit 990db80: every non-shortest form class (2 bytes for < U+0080, 3 bytes for < U+0800,
+    4 bytes for < U+10000) at its boundaries and at random, in a tag suffix, a verbatim tag and a %TAG prefix"""
+    def enc_n(cp, n):
+        if n == 2:
+            bs = [0xC0 | (cp >> 6), 0x80 | (cp & 63)]
+        elif n == 3:
+            bs = [0xE0 | (cp >> 12), 0x80 | ((cp >> 6) & 63), 0x80 | (cp & 63)]
+        else:
+            bs = [0xF0 | (cp >> 18), 0x80 | ((cp >> 12) & 63), 0x80 | ((cp >> 6) & 63), 0x80 | (cp & 63)]
+        return "".join(("%%%02X" if rng.random() < 0.7 else "%%%02x") % b for b in bs)
+    cases = []
+    for n, lim in ((2, 0x80), (3, 0x800), (4, 0x10000)):
+        pts = [0, 1, 0x2F, 0x7F, lim - 1] + [rng.randrange(0, lim) for _ in range(20 if tier == "quick" else 2000)]
+        if n >= 3:
+            pts += [0x80, 0x7FF]
+        if n == 4:
+            pts += [0x800, 0xFFFF, 0xD800]
+        cases += [(enc_n(cp, n), cp) for cp in pts if cp < lim]
+    out = []
+    for i, (e, cp) in enumerate(cases):
+        kind = i % 3
+        b = Builder()
+        dirs = []
+        if kind == 2:
+            d = dict(k="T", h="!e!", raw="tag:e," + e, off=0)
+            b.emit("%%TAG !e! %s\n" % d["raw"])
+            dirs.append(d)
+            t = TagS("named", "!e!", "x")
+        else:
+            t = TagS("local", raw="a" + e + "z") if kind == 0 else TagS("verbatim", raw=e)
+        b.emit("--- ")
+        n = dict(tag=t, off=b.n, tagoff=b.n)
+        b.emit(t.text() + " v\n")
+        out.append(dict(text=b.text(), docs=[dict(dirs=dirs, nodes=[n], shape="overlong", implicit=False)]))
     return out
 
 
@@ -713,6 +788,7 @@ def check_C16(tier, seed):
         res.add_tie_break("the Python percent-decoder disagrees with Python's strict UTF-8 codec", at=st)
     n_rand = 6000 if tier == "quick" else 150000
     groups = [("systematic", systematic()), ("utf8-sweep", utf8_sweep(tier, rng)),
+              ("overlong-sweep", overlong_sweep(tier, rng)), ("theorem-shape", theorem_shape(tier, rng)),
               ("random", [gen_stream(rng) for _ in range(n_rand)]),
               ("random-clean", [gen_stream(rng, 0.0, 0.0) for _ in range(n_rand // 3)])]
     streams, seen, dist = [], set(), {}
@@ -740,7 +816,6 @@ def check_C16(tier, seed):
             rendered[k] = [p[1] for p in pairs]
         coq = {k: run_mx(["spec"], descs[k], tag="C16") for k in (0, 1)}
         stats = dict(ok=0, undeclared=0, duphandle=0, dupyaml=0, escape=0, lead=0, trail=0, codepoint=0, overlong=0)
-        kn_overlong, kn_example = 0, None
         spell = {}
         for i, s in enumerate(streams):
             text = s["text"]
@@ -766,22 +841,10 @@ def check_C16(tier, seed):
                 res.evaluations += 1
                 case = dict(input=text, codepoints=lines[i], keep_tags=bool(k))
                 line = impl[k][i]
-                strict = walk(s, bool(k), False)
-                bad = judge(strict, line, text, scan_defects(s, True))
+                strict = walk(s, bool(k))
+                bad = judge(strict, line, text, scan_defects(s))
                 cls = "ok" if strict["ok"] else strict["why"]
                 stats[cls] += 1
-                if bad is not None and strict["over"]:
-                    # the first defect of the strict reading is a non-shortest form: the known finding
-                    lenient = walk(s, bool(k), True)
-                    bad2 = judge(lenient, line, text, scan_defects(s, True))
-                    if bad2 is None and "overlong-utf8-escape" in known:
-                        kn_overlong += 1
-                        kn_example = kn_example or (text, line[-120:])
-                        bad = None
-                    elif bad2 is None:
-                        bad = bad + " [non-shortest UTF-8 escape accepted; not a recorded known finding]"
-                    else:
-                        bad = "neither the strict nor the lenient reading of a non-shortest escape: " + bad2
                 if bad is not None:
                     res.add_violation("tag resolution differs from the statement: " + bad, case, impl=line[-400:],
                                       expected=dict(ok=strict["ok"], tags=[list(t) if t else None for t in strict["seq"]],
@@ -802,22 +865,20 @@ def check_C16(tier, seed):
                                                      or "%" in n["tag"].raw) for dd in s["docs"] for n in dd["nodes"])
                 if uses or not strict["ok"]:
                     res.nontrivial.add((text, k))
-        if kn_overlong:
-            res.known.append("overlong-utf8-escape: %d of the generated cases whose first defect is a non-shortest UTF-8 escape are "
-                             "decoded instead of rejected; e.g. %r -> %s" % (kn_overlong, kn_example[0], kn_example[1]))
         res.coverage["expected_outcomes"] = stats
         res.coverage["tag_spellings"] = spell
-        res.coverage["known_finding_cases"] = dict(overlong_utf8_escape=kn_overlong)
+        res.coverage["known_finding_classes"] = sorted(known)
         res.coverage["traces_validated_against_impl"] = 2 * len(streams)
         for i in (7, len(streams) // 3, len(streams) // 2, len(streams) - 11):
             if 0 <= i < len(streams):
-                w = walk(streams[i], False, False)
+                w = walk(streams[i], False)
                 res.samples.append(dict(input=streams[i]["text"], keep_tags=False,
                                         expected=[list(t) if t else None for t in w["seq"]] + ([w["why"]] if not w["ok"] else []),
                                         impl=proj(impl[0][i])[-200:]))
     rule = ("streams of 1-3 documents, 0-3 %TAG lines each over 7 handles x 24 prefixes, %YAML/reserved directives, 10 node shapes, "
             "5 tag spellings, suffixes with valid/broken/non-shortest percent escapes, each under keep_tags off and on; plus a "
-            "systematic product (directive set x spelling x position) and one tag per code point (class boundaries + random scalar "
-            "values); non-trivial = distinct (stream, keep_tags) where a tag uses a %TAG-declared handle or a percent escape, or an "
+            "systematic product (directive set x spelling x position), one tag per code point (class boundaries + random scalar "
+            "values), one stream per non-shortest encoding (2/3/4 bytes, boundaries + random; must be rejected) and streams of "
+            "exactly the shape of the text-level theorems ([%TAG line] '--- <tag> x', texts from the YAML character classes); non-trivial = distinct (stream, keep_tags) where a tag uses a %TAG-declared handle or a percent escape, or an "
             "error is expected")
     return res.finish(proof, rule)
